@@ -56,7 +56,7 @@ for mod,structs in by.items():
         open spec fn dec_stop(rest: Seq<u8>) -> bool {{ {stop} }}
         /// the tag loop is specified by totality and frame clauses only
         open spec fn functional() -> bool {{ false }}
-        //@ fn exp:zvt | impl zvt_builder::encoding::Encoding<{n}> for zvt_builder::encoding::Default | encode | mod={mod} props=C03
+        //@ fn exp:zvt | impl zvt_builder::encoding::Encoding<{n}> for zvt_builder::encoding::Default | encode | mod={mod} props=C03,~C01
         //@ end
         //@ fn exp:zvt | impl zvt_builder::encoding::Encoding<{n}> for zvt_builder::encoding::Default | decode | mod={mod} all-loops props=C02,C14
         //@ loop 0
